@@ -100,6 +100,9 @@ for _sc in ('linear', 'log', 'logicle'):
 CALLS['gate.density2d(edges)'] = (lambda s, a: FlowCal.gate.density2d(s, a['chs2'], bins=a['edges2'], gate_fraction=0.7, sigma=1.0), False, False)
 for _st in ('mean', 'gmean', 'median', 'mode', 'std', 'cv', 'gstd', 'gcv', 'iqr', 'rcv'):
     CALLS['stats.%s' % _st] = ((lambda st: (lambda s, a: getattr(FlowCal.stats, st)(s + 1 if st in ('gmean', 'gstd', 'gcv') else s, a['chs'])))(_st), True, False)
+    CALLS['stats.%s(name)' % _st] = ((lambda st: (lambda s, a: getattr(FlowCal.stats, st)(s + 1 if st in ('gmean', 'gstd', 'gcv') else s, s.channels[1])))(_st), True, False)
+    CALLS['stats.%s(pos)' % _st] = ((lambda st: (lambda s, a: getattr(FlowCal.stats, st)(s + 1 if st in ('gmean', 'gstd', 'gcv') else s, 2)))(_st), True, False)
+    CALLS['stats.%s(ndarray,pos)' % _st] = ((lambda st: (lambda s, a: getattr(FlowCal.stats, st)(a['plain'] + 1 if st in ('gmean', 'gstd', 'gcv') else a['plain'], 1)))(_st), True, False)
     CALLS['stats.%s(all)' % _st] = ((lambda st: (lambda s, a: getattr(FlowCal.stats, st)(s + 1 if st in ('gmean', 'gstd', 'gcv') else s)))(_st), True, False)
 for _sc in ('linear', 'log', 'logicle'):
     CALLS['mef.selection_std(%s)' % _sc] = ((lambda sc: (lambda s, a: FlowCal.mef.selection_std(a['pops'], scale=sc)))(_sc), True, False)
@@ -143,7 +146,7 @@ def build_args(s, rng, floaty):
     pops = [pops_src[i * third:(i + 1) * third] for i in range(3)]
     b = np.concatenate([np.abs(np.random.RandomState(3).normal(m, m * 0.03, size=(60, 2))) for m in (50., 300., 900.)])
     return {
-        'nbins': [8, None], 'scales': ['linear', 'log'],
+        'nbins': [8, None], 'scales': ['linear', 'log'], 'plain': np.array(np.asarray(s), dtype=np.float64 if floaty else np.asarray(s).dtype),
         'chs': [names[2], 0], 'chs2': [names[0], names[1]], 'at': [(0, 0), None], 'ag': [None, 2.0], 'res': [None, 1024],
         'sc_list': [lambda x: 2.0 * x + 1, lambda x: 3.0 * x], 'high': [900., 800.], 'low': [1., 2.],
         'center': [400., 300.], 'bins2': [8, 6], 'edges2': [np.linspace(-1, 1100, 9), np.linspace(-1, 1100, 7)],
